@@ -204,6 +204,26 @@ def analyse_unit(unit, extra):
             okc = rhs in ("%s[2+%s]" % (k.p_values, var), "%s[%s+2]" % (k.p_values, var)) and cond == "%s<%s" % (var, npars)
             _inst(out, "R-C01-restart", okc, KI, fn, "for (%s) local[%s] = %s" % (cond, var, rhs), n.get("_line", 0),
                   "all %s parameters start from their central values, after the scale and background slots" % npars)
+            # ... and nothing is written into the local table before that copy (it would be overwritten by it)
+            lvname = None
+            for x in cfront.walk(n):
+                if x.get("kind") == "BinaryOperator" and x.get("opcode") == "=":
+                    m1 = re.match(r"^(\w+)\.vector\[", norm(c_text(kids(x)[0])))
+                    if m1:
+                        lvname = m1.group(1)
+            early = []
+            for st in kids(k.body):
+                if st is n:
+                    break
+                for x in cfront.walk(st):
+                    if x.get("kind") in ("BinaryOperator", "CompoundAssignOperator") and (x.get("opcode") == "=" or x.get("kind") == "CompoundAssignOperator"):
+                        lhs = norm(c_text(kids(x)[0]))
+                        if lvname and lhs.startswith(lvname + "."):
+                            early.append(x)
+            _inst(out, "R-C01-restart", not early, KI, fn, "local table filled before any other write to it", n.get("_line", 0),
+                  "the copy of the central values comes first" if not early else
+                  "`%s` is written before the table is filled from the value vector and is then overwritten by the copy: the jitter "
+                  "slots no longer start at zero" % c_text(early[0])[:60])
         _inst(out, "R-C01-restart", dtext("step") == k.p_start, KI, fn, "int step = %s" % dtext("step"), line,
               "mesh position starts at pd_start")
         incs = [n for n in cfront.walk(k.body) if n.get("kind") == "UnaryOperator" and n.get("opcode") == "++"
